@@ -62,6 +62,7 @@ Theorem C20_C_positive_semidefinite_1d : forall xs v,
   strictly_inc xs -> hd 0 xs = 0 -> last xs 0 = 1 -> length v = length (windows xs) ->
   0 <= quad (C_matrix_dw_spec [xs]) v.
 Proof. exact C_positive_semidefinite_1d. Qed.
+Print Assumptions C20_C_quadratic_form_is_cell_sum.
 Print Assumptions C20_C_positive_semidefinite_1d.
 
 (* ---- Opticom: every variant ends with coefs / sum(coefs) *)
@@ -100,3 +101,201 @@ Example C20_nonvacuous_normalise :
   sumQ (normalise_coefficients [qq 3 1; qq (-1) 1; qq 1 2]) = 1 /\
   residual_ok [[qq 2 1; qq 1 1]; [qq 1 1; qq 3 1]] [qq 3 1; qq 4 1] [qq 1 1; qq 1 1] (qq 1 100) = true.
 Proof. split; [|split]; [apply Qc_is_canon; vm_compute; reflexivity | apply Qc_is_canon; vm_compute; reflexivity | vm_compute; reflexivity]. Qed.
+
+(* ======================================================================================================================
+   Deepening (round 2).  Proofs: Proofs/RegressLS.v, Proofs/RegressUniform.v
+   ====================================================================================================================== *)
+From SG Require Import Proofs.RegressLS Proofs.RegressUniform Proofs.RegressPSD.
+
+(* ---- "the surpluses solve the regularised least-squares problem": solutions of the normal equations of the model
+   (left_matrix_gen A lambda M = 1/m A^T A + lambda M, right_vector = 1/m A^T y) are GLOBAL MINIMISERS of
+   J(a) = 1/m |A a - y|^2 + lambda a^T M a, for every design matrix (any number of rows and columns), all targets,
+   lambda >= 0 and every symmetric positive semi-definite M; the gap is exactly 1/m |A d|^2 + lambda d^T M d. *)
+Theorem C20_normal_equations_gap : forall n A y lam M alpha delta,
+  wf_matrix n A -> A <> [] -> length y = length A -> wf_matrix n M -> length M = n -> length alpha = n -> length delta = n ->
+  bilinear_symmetric n M ->
+  matvec (left_matrix_gen A lam M) alpha = right_vector A y ->
+  J A y lam M (vadd alpha delta)
+  = J A y lam M alpha + ((1 / qc_of_nat (length A)) * sqnorm (matvec A delta) + lam * quad M delta).
+Proof. exact normal_equations_gap. Qed.
+Theorem C20_normal_equations_minimise : forall n A y lam M alpha beta,
+  wf_matrix n A -> A <> [] -> length y = length A -> wf_matrix n M -> length M = n -> length alpha = n -> length beta = n ->
+  bilinear_symmetric n M -> psd n M -> 0 <= lam ->
+  matvec (left_matrix_gen A lam M) alpha = right_vector A y ->
+  J A y lam M alpha <= J A y lam M beta.
+Proof. exact normal_equations_minimise. Qed.
+Print Assumptions C20_normal_equations_gap.
+Print Assumptions C20_normal_equations_minimise.
+
+(* the three systems of the code (left_matrix of the model = build_left_matrix / solve_regression_dimension_wise_smooth):
+   identity, plain least squares (lambda = 0), smoothing matrix built by the double loop *)
+Theorem C20_ridge_normal_equations_minimise : forall n A y lam C alpha beta,
+  wf_matrix n A -> A <> [] -> length y = length A -> length alpha = n -> length beta = n -> 0 <= lam ->
+  matvec (left_matrix A lam false C) alpha = right_vector A y ->
+  J A y lam (identity n) alpha <= J A y lam (identity n) beta.
+Proof. exact ridge_normal_equations_minimise. Qed.
+Theorem C20_plain_least_squares_minimise : forall n A y use_C C alpha beta,
+  wf_matrix n A -> A <> [] -> length y = length A -> length alpha = n -> length beta = n ->
+  (use_C = true -> wf_matrix n C /\ length C = n) ->
+  matvec (left_matrix A 0 use_C C) alpha = right_vector A y ->
+  sqnorm (vsub (matvec A alpha) y) <= sqnorm (vsub (matvec A beta) y).
+Proof. exact plain_least_squares_minimise. Qed.
+(* _partial: positive semi-definiteness of the d-dimensional smoothing matrix is a hypothesis (proved for d = 1 below,
+   tested per case for d >= 2) *)
+Theorem C20_smooth_normal_equations_minimise_partial : forall (T : Type) (e : T -> T -> Qc) pts A y lam alpha beta,
+  let n := length pts in let C := sym_matrix e 0 pts in
+  wf_matrix n A -> A <> [] -> length y = length A -> length alpha = n -> length beta = n -> 0 <= lam -> psd n C ->
+  matvec (left_matrix A lam true C) alpha = right_vector A y ->
+  J A y lam C alpha <= J A y lam C beta.
+Proof. exact @smooth_normal_equations_minimise. Qed.
+Theorem C20_smooth_normal_equations_minimise_1d : forall xs A y lam alpha beta,
+  strictly_inc xs -> hd 0 xs = 0 -> last xs 0 = 1 ->
+  let n := length (windows xs) in let C := C_matrix_dw_spec [xs] in
+  wf_matrix n A -> A <> [] -> length y = length A -> length alpha = n -> length beta = n -> 0 <= lam ->
+  matvec (left_matrix A lam true C) alpha = right_vector A y ->
+  J A y lam C alpha <= J A y lam C beta.
+Proof. exact smooth_normal_equations_minimise_1d. Qed.
+Print Assumptions C20_ridge_normal_equations_minimise.
+Print Assumptions C20_plain_least_squares_minimise.
+Print Assumptions C20_smooth_normal_equations_minimise_partial.
+Print Assumptions C20_smooth_normal_equations_minimise_1d.
+
+(* what the verified residual checker certifies about the floating-point surpluses of the implementation:
+   they minimise J up to 2 |delta|_1 tol scale *)
+Theorem C20_residual_ok_near_minimiser : forall n A y lam M alpha delta tol,
+  wf_matrix n A -> A <> [] -> length y = length A -> wf_matrix n M -> length M = n -> length alpha = n -> length delta = n ->
+  bilinear_symmetric n M -> psd n M -> 0 <= lam ->
+  residual_ok (left_matrix_gen A lam M) (right_vector A y) alpha tol = true ->
+  J A y lam M alpha
+  <= J A y lam M (vadd alpha delta)
+     + (1 + 1) * (sumQ (map Qc_abs delta) * (tol * residual_scale (left_matrix_gen A lam M) (right_vector A y) alpha)).
+Proof. exact residual_ok_near_minimiser. Qed.
+Print Assumptions C20_residual_ok_near_minimiser.
+(* the checker actually evaluated per case uses the cancellation-aware scale max(scale, max_i (|A|^T |y|)_i / m) *)
+Theorem C20_residual_ok_floor_sound : forall L r alpha tol floor, residual_ok_floor L r alpha tol floor = true ->
+  Forall2 (fun row ri => Qc_abs (dotQ row alpha - ri) <= tol * Qc_max (residual_scale L r alpha) floor) L r.
+Proof. exact residual_ok_floor_sound. Qed.
+Theorem C20_residual_ok_floor_near_minimiser : forall n A y lam M alpha delta tol,
+  wf_matrix n A -> A <> [] -> length y = length A -> wf_matrix n M -> length M = n -> length alpha = n -> length delta = n ->
+  bilinear_symmetric n M -> psd n M -> 0 <= lam ->
+  residual_ok_floor (left_matrix_gen A lam M) (right_vector A y) alpha tol (residual_floor A y) = true ->
+  J A y lam M alpha
+  <= J A y lam M (vadd alpha delta)
+     + (1 + 1) * (sumQ (map Qc_abs delta)
+                  * (tol * Qc_max (residual_scale (left_matrix_gen A lam M) (right_vector A y) alpha) (residual_floor A y))).
+Proof. exact residual_ok_floor_near_minimiser. Qed.
+Print Assumptions C20_residual_ok_floor_sound.
+Print Assumptions C20_residual_ok_floor_near_minimiser.
+
+(* ---- "the smoothing matrix equals the Gram matrix of the basis gradients on uniform grids": TRUE for the code after fix
+   commit aa53b00 (mass terms with the level of their own dimension = C_val false), every dimension, all levels >= 1 *)
+Theorem C20_C_uniform_is_gradient_gram : forall lv iv jv,
+  length iv = length lv -> length jv = length lv -> Forall (fun l => (1 <= l)%Z) lv ->
+  C_val false lv iv jv = C_val_dw_spec (uhats lv iv) (uhats lv jv).
+Proof. exact C_uniform_is_gradient_gram. Qed.
+Theorem C20_C_matrix_uniform_is_gradient_gram : forall lv, Forall (fun l => (1 <= l)%Z) lv ->
+  C_matrix_uniform false lv = sym_matrix (fun iv jv => C_val_dw_spec (uhats lv iv) (uhats lv jv)) 0 (index_list lv).
+Proof. exact C_matrix_uniform_is_gradient_gram. Qed.
+Theorem C20_C_factors_uniform : forall l i j, (1 <= l)%Z ->
+  optval (grad_term l i j) = grad1_spec (uniform_dom l i) (uniform_dom l j) /\
+  optval (mass_term l i j) = mass1_spec (uniform_dom l i) (uniform_dom l j).
+Proof. intros l i j H. split; [apply grad_factor_uniform; lia | apply mass_factor_uniform; exact H]. Qed.
+Print Assumptions C20_C_uniform_is_gradient_gram.
+Print Assumptions C20_C_matrix_uniform_is_gradient_gram.
+Print Assumptions C20_C_factors_uniform.
+
+(* ---- "the design matrix holds the basis values at the training points": every row, ANY number of rows; evaluating the
+   training points block-wise and stacking the blocks gives the same matrix *)
+Theorem C20_design_matrix_holds_basis_values : forall lv data,
+  length (design_uniform lv data) = length data /\
+  (forall k x, nth_error data k = Some x ->
+     nth_error (design_uniform lv data) k = Some (map (fun iv => hat_nd hat_scalar (uhats lv iv) x) (index_list lv))).
+Proof. exact design_uniform_rows. Qed.
+Theorem C20_design_matrix_dimension_wise_holds_basis_values : forall stripes data, Forall (Forall proper) (grid_hats stripes) ->
+  length (design_nonuniform stripes data) = length data /\
+  (forall k x, nth_error data k = Some x ->
+     nth_error (design_nonuniform stripes data) k = Some (map (fun t => hat_nd hat_scalar t x) (grid_hats stripes))).
+Proof. exact design_nonuniform_rows. Qed.
+Theorem C20_design_matrix_blockwise : forall lv st d1 d2,
+  design_uniform lv (d1 ++ d2) = design_uniform lv d1 ++ design_uniform lv d2 /\
+  design_nonuniform st (d1 ++ d2) = design_nonuniform st d1 ++ design_nonuniform st d2.
+Proof. intros. split; [apply design_uniform_blocks | apply design_nonuniform_blocks]. Qed.
+Print Assumptions C20_design_matrix_holds_basis_values.
+Print Assumptions C20_design_matrix_dimension_wise_holds_basis_values.
+Print Assumptions C20_design_matrix_blockwise.
+
+(* ---- non-vacuity of the new statements *)
+Example C20_nonvacuous_minimiser :
+  let A := [[qq 1 1; qq 0 1]; [qq 0 1; qq 1 1]; [qq 1 2; qq 1 2]] in
+  let y := [qq 1 1; qq 2 1; qq 0 1] in
+  let alpha := [qq 8 21; qq 20 21] in
+  wf_matrix 2 A /\ A <> [] /\ length y = length A /\
+  matvec (left_matrix A (qq 1 4) false []) alpha = right_vector A y /\
+  J A y (qq 1 4) (identity 2) alpha = qq 19 21 /\
+  J A y (qq 1 4) (identity 2) [qq 1 2; qq 1 1] = qq 11 12.
+Proof.
+  cbv zeta. split; [repeat constructor | split; [discriminate | split; [reflexivity | split; [| split]]]].
+  - apply forallb2_Qc_eqb_eq. vm_compute. reflexivity.
+  - apply Qc_is_canon. vm_compute. reflexivity.
+  - apply Qc_is_canon. vm_compute. reflexivity.
+Qed.
+
+Example C20_nonvacuous_uniform_gram :
+  C_val false [1; 2]%Z [1; 1]%Z [1; 1]%Z = qq 10 3 /\
+  C_val_dw_spec (uhats [1; 2]%Z [1; 1]%Z) (uhats [1; 2]%Z [1; 1]%Z) = qq 10 3 /\
+  (C_val false [2; 1; 2]%Z [1; 1; 1]%Z [2; 1; 2]%Z
+   = C_val_dw_spec (uhats [2; 1; 2]%Z [1; 1; 1]%Z) (uhats [2; 1; 2]%Z [2; 1; 2]%Z)) /\
+  C_val false [2; 1; 2]%Z [1; 1; 1]%Z [2; 1; 2]%Z <> 0.
+Proof.
+  split; [|split; [|split]].
+  - apply Qc_is_canon; vm_compute; reflexivity.
+  - apply Qc_is_canon; vm_compute; reflexivity.
+  - apply Qc_is_canon; vm_compute; reflexivity.
+  - intro E. apply Qc_eq_Qeq in E. vm_compute in E. discriminate.
+Qed.
+
+Example C20_nonvacuous_design :
+  let data := [[qq 1 2; qq 1 4]; [qq 1 4; qq 3 8]; [qq 0 1; qq 1 1]] in
+  nth_error data 1 = Some [qq 1 4; qq 3 8] /\
+  map (fun iv => hat_nd hat_scalar (uhats [1; 2]%Z iv) [qq 1 4; qq 3 8]) (index_list [1; 2]%Z) = [qq 1 4; qq 1 4; qq 0 1].
+Proof. cbv zeta. split; [reflexivity | apply forallb2_Qc_eqb_eq; vm_compute; reflexivity]. Qed.
+
+(* ---- "the smoothing matrix is positive semi-definite" for d >= 2: verified checker (exact symmetric elimination), evaluated
+   through the entry point on the specification matrix of the model and on the implementation's matrix of every explored case.
+   Accepted matrices are positive semi-definite; with an accepted smoothing matrix the minimiser theorem is unconditional. *)
+Theorem C20_psd_check_sound : forall G, psd_check G = true -> forall v, length v = length G -> 0 <= quad G v.
+Proof. exact psd_check_sound. Qed.
+Theorem C20_smooth_normal_equations_minimise_checked : forall (T : Type) (e : T -> T -> Qc) pts A y lam alpha beta,
+  let n := length pts in let C := sym_matrix e 0 pts in
+  psd_check C = true ->
+  wf_matrix n A -> A <> [] -> length y = length A -> length alpha = n -> length beta = n -> 0 <= lam ->
+  matvec (left_matrix A lam true C) alpha = right_vector A y ->
+  J A y lam C alpha <= J A y lam C beta.
+Proof.
+  intros T e pts A y lam alpha beta n C Hc Hwf Hne Hy Ha Hb Hlam NE.
+  apply (smooth_normal_equations_minimise e pts A y lam alpha beta); try assumption.
+  pose proof (psd_check_psd C Hc) as P. unfold C in P at 1. rewrite sym_matrix_length in P. exact P.
+Qed.
+Print Assumptions C20_psd_check_sound.
+Print Assumptions C20_smooth_normal_equations_minimise_checked.
+
+Example C20_nonvacuous_psd_check :
+  psd_check (C_matrix_uniform false [2; 2]%Z) = true /\
+  psd_check (C_matrix_dw_spec [[qq 0 1; qq 1 4; qq 1 2; qq 1 1]; [qq 0 1; qq 1 2; qq 3 4; qq 1 1]]) = true /\
+  length (C_matrix_uniform false [2; 2]%Z) = 9%nat /\
+  psd_check [[qq 1 1; qq 2 1]; [qq 2 1; qq 1 1]] = false /\
+  psd_check [[qq 1 1; qq 2 1]; [qq 0 1; qq 1 1]] = false /\
+  psd_check [[qq 0 1; qq 0 1]; [qq 0 1; qq 1 1]] = true.
+Proof. repeat split; vm_compute; reflexivity. Qed.
+
+(* duplicated sample with opposite targets: A^T y = 0 although y <> 0; rounding noise of size 1e-15 in the surplus is rejected
+   by the purely relative scale and accepted by the cancellation-aware one; a surplus of size 1e-3 is rejected by both *)
+Example C20_nonvacuous_residual_floor :
+  let A := [[qq 1 2]; [qq 1 2]] in let y := [qq 1 1; qq (-1) 1] in
+  let L := left_matrix A 0 false [] in let r := right_vector A y in
+  let noise := [Q2Qc (1 # 1000000000000000)] in
+  residual_floor A y = qq 1 2 /\
+  residual_ok L r noise (qq 1 100000000) = false /\
+  residual_ok_floor L r noise (qq 1 100000000) (residual_floor A y) = true /\
+  residual_ok_floor L r [qq 1 1000] (qq 1 100000000) (residual_floor A y) = false.
+Proof. cbv zeta. split; [apply Qc_is_canon; vm_compute; reflexivity | repeat split; vm_compute; reflexivity]. Qed.
